@@ -25,12 +25,16 @@ GROUPS = {
     "c13": ([K + "c13_sign_rule", K + "c13_is_numeric_text"], []),
     "c14": ([K + "c14_word_tracker_step", K + "c14_eval_binary_all_orders_7_word", K + "c14_eval_binary_all_orders_7_slice"],
             [K + "c14_slice_tracker_step_2w", K + "c14_slice_tracker_step_3w", K + "c14_eval_binary_all_orders_9_word"]),
-    "c15": ([K + "c15_consuming_vs_cloning_3"], [K + "c15_consuming_vs_cloning_4"]),
+    # 3 nodes run CBMC out of memory (25 GB) on this image: 2 nodes, thorough tier only; clone counts and all larger
+    # patterns are engine S's part of C15
+    "c15": ([], [K + "c15_consuming_vs_cloning_2"]),
 }
 # value cells: quick = the cells the property texts single out + numeric/error groups of the arithmetic core
-CELL_QUICK_UNARY = ["minus", "abs", "to_int", "to_float", "fact", "plus"]
-CELL_QUICK_BIN = [("plus", 0), ("minus", 0), ("mul", 0), ("div", 0), ("rem", 0), ("pow", 0), ("shl", 0), ("eq", 0), ("lt", 0), ("if", 0), ("else", 0), ("min", 0),
-                  ("plus", 1), ("rem", 1), ("if", 1)]
+# measured alone on this image: un_minus 146 s, un_abs 135 s, un_to_int 130 s, rem_g0 114 s, div_g0 160 s, eq_g0 118 s, casts 110-138 s;
+# plus_g0 420 s, pow_g0 484 s, fact 248 s, if_g0 199 s are thorough-tier; mul_g0 does not finish in 900 s
+CELL_QUICK_UNARY = ["minus", "abs", "to_int"]
+CELL_QUICK_BIN = [("rem", 0), ("div", 0), ("eq", 0)]
+CELL_QUICK_EXTRA = ["c17_casts_i32_f32"]
 C17_RULE_CELLS = ("c16_un_minus", "c16_un_abs", "c16_bin_rem", "c16_un_to_int", "c16_un_to_float", "c16_bin_pow", "c16_bin_div", "c16_un_fact", "c16_bin_shl", "c16_bin_shr")
 
 
@@ -76,12 +80,14 @@ def harness_list(groups, tier, cells):
             hs += q + (t if tier == "thorough" else [])
         elif g in ("c16", "c17", "c18"):
             names = cells["c16_unary"] + cells["c16_scalar"] + cells["c16_array"]
-            if tier == "thorough":
+            names = names + cells.get("c17_casts", [])
+            if g == "c18":
+                # the functions the piecewise derivatives rest on: thorough tier only (engine S is the quick check of C18)
+                sel = [n for n in names if n in ("c16_bin_if_g0", "c16_bin_else_g0", "c16_bin_lt_g0", "c16_bin_eq_g0", "c16_un_to_float")] if tier == "thorough" else []
+            elif tier == "thorough":
                 sel = names
             else:
-                sel = [n for n in names if any(n == f"c16_un_{u}" for u in CELL_QUICK_UNARY) or any(n == f"c16_bin_{b}_g{g2}" for b, g2 in CELL_QUICK_BIN)]
-                if g == "c18":
-                    sel = [n for n in names if n in ("c16_bin_if_g0", "c16_bin_else_g0", "c16_bin_lt_g0", "c16_bin_eq_g0", "c16_un_to_float")]
+                sel = [n for n in names if any(n == f"c16_un_{u}" for u in CELL_QUICK_UNARY) or any(n == f"c16_bin_{b}_g{g2}" for b, g2 in CELL_QUICK_BIN) or n in CELL_QUICK_EXTRA]
             hs += ["cells::" + n for n in sel]
         elif g == "c19":
             import glob
@@ -171,7 +177,8 @@ def native_playback(harness, test_src):
     with open(path, "a") as f:
         f.write("\n" + test_src + "\n")
     out = {}
-    for profile in ([], ["--release"]):
+    # `cargo kani playback` of 0.68 has no release switch: the replay runs in the dev profile Kani models
+    for profile in ([],):
         cmd = ["cargo", "kani", "playback", "-Z", "concrete-playback"] + profile + ["--", "kani_concrete_playback"]
         p = subprocess.run(cmd, cwd=scratch, env=ENV, stdout=subprocess.PIPE, stderr=subprocess.STDOUT, text=True)
         t = p.stdout
@@ -221,8 +228,8 @@ def run(pid, groups, tier, seed):
     if not hs:
         res["stats"] = {"evaluations": 0, "distinct_nontrivial": 0, "obligations": 0, "discharged": 0}
         return res
-    timeout_s = 300 if tier == "quick" else 1800
-    jobs = 12 if tier == "quick" else 8
+    timeout_s = 600 if tier == "quick" else 1800
+    jobs = 8 if tier == "quick" else 6
     # CBMC's extra float checks flag NaN / infinite RESULTS, which are legitimate here; Rust's own integer overflow assertions stay on
     extra = ["--no-overflow-checks"]
     cache_key = hashlib.sha256((source_hash() + tier + " ".join(hs)).encode()).hexdigest()[:16]
